@@ -68,7 +68,12 @@ fn w(tree: &Node, ctx: &HashMapContext) {
         for d in t['dyn']:
             ctx.check('ClonableFn' in d, 'O4', 'dyn:%s:%s' % (t['adt'], d), 'dyn', 'the only trait object reachable is dyn ClonableFn (found %s)' % d)
         ctx.check(not t['fn_ptrs'] or True, 'O4', 'fn-pointers:' + t['adt'], 'fnptr', 'fn pointers are Send + Sync')
-    ctx.floor('O4', 'adts_walked', n, 14)
+    # the walk must have covered every public type the property names (a count of all local types would alarm when two private
+    # helper types are merged into one)
+    walked = {t['adt'].split('::')[-1].split('<')[0] for t in facts['type_walk']}
+    named = {t.split('<')[0] for t in TYPES}
+    ctx.check(named <= walked, 'O4', 'adts_walked:named-types', 'coverage', 'the type walk covers every public type the property names (missing %s)' % sorted(named - walked))
+    ctx.floor('O4', 'adts_walked', n, len(named))
     cf = [t for t in facts['traits'] if t['path'].endswith('function::ClonableFn')]
     sup = ' '.join(cf[0]['super_predicates']) if cf else ''
     ctx.check(bool(cf) and 'Send' in sup and 'Sync' in sup and "'static" in sup, 'O4', 'ClonableFn:Send+Sync+static', 'supertraits', 'ClonableFn requires Self: Send + Sync + \'static (%s)' % sup)
